@@ -362,6 +362,17 @@ Qed.
 Lemma all_ok_gen (data : seq (pdata M n nw nu nyf)) : all_ok (List.map (gen_period s) data).
 Proof. by elim: data => [|d data IH] //=; split; [exact: gen_period_ok | exact: IH]. Qed.
 
+Lemma output_mapping (a abar : 'cV[F]_n) (Q : 'M[F]_n) (i : 'I_(length (so_curr_xi s))) (r : 'I_nxi) :
+  nth 0%N (so_curr_xi s) i = r ->
+  [/\ xi_med s a = mc_rows (so_curr_xi s) (so_Ua s *m a),
+      xi_med s a i ord0 = (so_Ua s *m a) r ord0,
+      xi_med s (a - abar) = xi_med s a - xi_med s abar &
+      let U := mc_rows (so_curr_xi s) (so_Ua s) in
+      (U *m Q *m U^T) i i = (so_Ua s *m Q *m (so_Ua s)^T) r r].
+Proof.
+move=> E; split; [exact: xi_med_rows | exact: xi_med_entry | exact: xi_med_sub | exact: xi_var_entry].
+Qed.
+
 End Mapping.
 
 End SmootherProofs.
